@@ -12,13 +12,16 @@ from props.base import Job, T1, T2, T6
 from props import tree_jobs as TJ
 from props import wrapper_jobs as WJ
 from props import ctor_jobs as CJ
+from props import history_jobs as HJ
 
 LEVEL = 'proof'
 TRUSTED = ['pyvc interpreter + heap model (T6)', 'z3 5.1.0']
 ASSUMPTIONS = [T1, T2, T6]
 NOT_DECIDED = ['"different entropies give different paths" is a statement about numpy SeedSequence hashing: no contract on torchsde code expresses it',
-               'history independence of the dyadic *decomposition* of a query (same node list whatever was queried before) needs the '
-               'laminar-family induction; the per-node facts it rests on (split point, key, seeds, value are functions of the node path, entropy and options) are proved']
+               'history independence of the dyadic *decomposition* of a query (same node list whatever was queried before) is not proved (it needs the '
+               'laminar-family induction); the per-node facts it rests on (split point, key, seeds, value are functions of the node path, entropy and '
+               'options) are proved, and the closing step is served by a BOUNDED stand-in (targets on the 1/8 grid, histories of at most 2 queries '
+               'from a pool of 6, tol = 1e-3), reported under bounded_stand_ins and not counted as proved']
 EXPLANATION = __doc__
 BI = 'torchsde._brownian.brownian_interval'
 
@@ -79,7 +82,8 @@ def job_nondeterminism(E, rep, tier):
 def jobs(tier):
     P = 'C06'
     return [Job('nondeterminism-scan', job_nondeterminism), CJ.job_constructor(P), CJ.job_tree_constructor(P),
-            TJ.make(P, 'split', False), TJ.make(P, 'split_exact', False), TJ.job_split_algebra(P, ()), WJ.job_wrappers(P)]
+            TJ.make(P, 'split', False), TJ.make(P, 'split_exact', False), TJ.job_split_algebra(P, ()), WJ.job_wrappers(P),
+            HJ.job_dyadic_grid(P, (False,)), HJ.job_dyadic_grid(P, (True,))]
 
 
 def canaries(tier):
